@@ -5,6 +5,7 @@
 package libsim
 
 import (
+	"bytes"
 	"encoding/json"
 	"fmt"
 	"hash/fnv"
@@ -256,6 +257,11 @@ type Cfg struct {
 	// MemLimitMB > 0: the run happens under a soft memory limit of that many
 	// MiB (debug.SetMemoryLimit, what GOMEMLIMIT sets)
 	MemLimitMB int `json:"mem_limit_mb,omitempty"`
+	// Refill: every caller owns one buffer (bytes and bits) that it refills in
+	// place with the step's input before each call - the way a caller that
+	// reuses its read buffer presents successive samples. All inputs of such a
+	// case have the same length.
+	Refill bool `json:"refill,omitempty"`
 }
 
 // InputSpec describes an input.
@@ -493,8 +499,23 @@ func Execute(t *testing.T, c *Cfg, sim bool) *Outcome {
 		got[i] = make([]Res, len(c.Tasks[i]))
 	}
 	taskBody := func(ti int) {
+		var own *Input
+		if c.Refill {
+			own = &Input{Name: fmt.Sprintf("own%d", ti), Bytes: make([]byte, len(ins[0].Bytes)), Bits: make([]bool, len(ins[0].Bits))}
+		}
 		for si, s := range c.Tasks[ti] {
-			r := Invoke(&Catalogue[s.Call], ins[s.Input])
+			arg := ins[s.Input]
+			if own != nil {
+				copy(own.Bytes, arg.Bytes)
+				copy(own.Bits, arg.Bits)
+				arg = own
+			}
+			r := Invoke(&Catalogue[s.Call], arg)
+			if own != nil && (!bytes.Equal(own.Bytes, ins[s.Input].Bytes) || hashBits(own.Bits) != hashBits(ins[s.Input].Bits)) {
+				mu.Lock()
+				out.Mismatches = append(out.Mismatches, Mismatch{"input-modified", fmt.Sprintf("caller %d's own buffer was modified by %s", ti, Catalogue[s.Call].Name)})
+				mu.Unlock()
+			}
 			mu.Lock()
 			got[ti][si] = r
 			out.Calls++
